@@ -165,6 +165,8 @@ func classifyBuild(out string) string {
 	switch {
 	case strings.Contains(out, "does not implement") || strings.Contains(out, "missing method"):
 		return "not-implemented"
+	case strings.Contains(out, "operator") && strings.Contains(out, "not defined on"):
+		return "operator-undefined"
 	case strings.Contains(out, "has no field or method"):
 		return "no-such-method"
 	case strings.Contains(out, "duplicate case"):
